@@ -664,7 +664,8 @@ def compare(output, model, recs, info):
                     try:
                         cv, rv = int(pa[2]), int(pb[2])
                         sc = leaf_scalar(lf)
-                        if sc.signed and cv < 0 and rv == cv + (1 << lf.bits) and lf.bits < sc.bits:
+                        tbits = 64 if sc.kind == "enum" else sc.bits      # (the enum's underlying type may be wider than int)
+                        if sc.signed and cv < 0 and rv == cv + (1 << lf.bits) and lf.bits < tbits:
                             sig = "c03.signed-getter-zero-extended"
                     except ValueError:
                         pass
